@@ -32,6 +32,7 @@ VARIABLES l,      \* next line
           fs,     \* frame stack for the step rules: Seq of [gas, pc, stk, msize, op, cost, enterGas, self, node]
           calls,  \* the call tree as the callbacks imply it (C07, C08): Seq of expected nodes, in order of entry
           open,   \* indices of the nodes whose CALL/CREATE frame is open, innermost last
+          acl,    \* EIP-2929 access list as the transaction started: [a (addresses), s ("address/slot" keys)]; what frames add lives in fs[i].wa / .ws
           rfx,    \* refund counter the steps of the run imply: [seen (the top-level frame has ended), ref, ok (every contributing step had its facts)]
           balx,   \* C13 on recorded runs: [exp, got]: balance journal (account, call index) -> values, as the observed transfers imply it / as dumped
           jpx,    \* C05 on recorded runs: [on, pos (callbacks seen in this run), exp (Seq of expected firings), i (firings compared)]
@@ -40,16 +41,16 @@ VARIABLES l,      \* next line
           xeip,   \* the run has EIP-3860 enabled as an extra EIP (reset line: code = 3860)
           cnt     \* rule counters
 
-vars == <<l, viol, nviol, fs, calls, open, jpx, balx, rfx, run, fork, xeip, cnt>>
+vars == <<l, viol, nviol, fs, calls, open, jpx, balx, rfx, acl, run, fork, xeip, acl, cnt>>
 
 Comps == {"stream", "gas", "result", "tracerout", "rule", "treeshape", "treecontent", "jpseq", "baljournal"}
 
 Init ==
   /\ l = 1 /\ viol = <<>> /\ nviol = [c \in Comps |-> 0] /\ fs = <<>> /\ calls = <<>> /\ open = <<>> /\ run = "" /\ fork = 0 /\ xeip = FALSE
   /\ jpx = [on |-> FALSE, pos |-> 0, exp |-> <<>>, i |-> 0]
-  /\ balx = [exp |-> <<>>, got |-> <<>>] /\ rfx = [seen |-> FALSE, ref |-> 0, ok |-> FALSE]
+  /\ balx = [exp |-> <<>>, got |-> <<>>] /\ rfx = [seen |-> FALSE, ref |-> 0, ok |-> FALSE] /\ acl = [a |-> {}, s |-> {}]
   /\ cnt = [lines |-> 0, runs |-> 0, steps |-> 0, gascont |-> 0, oog |-> 0, pcrule |-> 0, stackrule |-> 0, constgas |-> 0,
-            memgas |-> 0, callret |-> 0, enters |-> 0, results |-> 0, tracerouts |-> 0, nodes |-> 0, refused |-> 0, trees |-> 0, forkgas |-> 0, firings |-> 0, refunds |-> 0, xfers |-> 0, balvals |-> 0, baljournals |-> 0, refundrule |-> 0, sstorerule |-> 0, callrule |-> 0]
+            memgas |-> 0, callret |-> 0, enters |-> 0, results |-> 0, tracerouts |-> 0, nodes |-> 0, refused |-> 0, trees |-> 0, forkgas |-> 0, firings |-> 0, refunds |-> 0, xfers |-> 0, balvals |-> 0, baljournals |-> 0, refundrule |-> 0, sstorerule |-> 0, callrule |-> 0, aclrule |-> 0]
 
 ---------------------------------------------------------------------------
 (* refinement: which fields belong to which component *)
@@ -105,6 +106,24 @@ DynCost(e) ==
   ELSE IF o = 10 /\ e.t1 # "" THEN 10 + (IF fork >= 3 THEN 50 ELSE 10) * (IF e.t1 = "0x0" THEN 0 ELSE HexBytes(e.t1))   \* EXP
   ELSE -1
 
+\* ---- EIP-2929 access list, kept by the specification itself -----------------------------------------------------------------
+\* Warm = what the transaction started with (sender, destination, precompiles, coinbase from Shanghai on, declared entries) plus what
+\* the open frames have touched; a frame that fails takes its additions with it, a frame that ends without error hands them to its parent.
+HasSlash(x) == \E i \in 1..Len(x) : SubSeq(x, i, i) = "/"
+WarmAddr(x) == x \in acl.a \/ \E i \in 1..Len(fs) : x \in fs[i].wa
+WarmSlot(k) == k \in acl.s \/ \E i \in 1..Len(fs) : k \in fs[i].ws
+AddrOps == {49, 59, 60, 63, 241, 242, 244, 250, 255}      \* BALANCE EXTCODESIZE EXTCODECOPY EXTCODEHASH CALL CALLCODE DELEGATECALL STATICCALL SELFDESTRUCT
+WarmFact(e) == IF e.op = 255 THEN (IF Len(e.facts) = 2 THEN e.facts[2] ELSE -1) ELSE (IF Len(e.facts) >= 1 THEN e.facts[1] ELSE -1)
+SlotKey(f, e) == f.self \o "/" \o e.t0
+\* the answer the implementation's gas function got from its access list must be the one this list gives
+AclRule(f, e) ==
+  IF fork < 8 \/ e.err # "" THEN {}
+  ELSE IF e.op \in AddrOps /\ e.tgt # "" /\ WarmFact(e) >= 0 /\ WarmFact(e) # (IF WarmAddr(e.tgt) THEN 1 ELSE 0)
+       THEN {"acl:the address is " \o (IF WarmAddr(e.tgt) THEN "warm" ELSE "cold") \o " by EIP-2929 but was priced as the opposite"}
+  ELSE IF e.op \in {84, 85} /\ Len(e.facts) = 1 /\ e.facts[1] >= 0 /\ e.t0 # "" /\ e.facts[1] # (IF WarmSlot(SlotKey(f, e)) THEN 1 ELSE 0)
+       THEN {"acl:the storage slot is " \o (IF WarmSlot(SlotKey(f, e)) THEN "warm" ELSE "cold") \o " by EIP-2929 but was priced as the opposite"}
+  ELSE {}
+
 \* ---- SSTORE: price and refund from (current, original, new value, slot warm) by fork -------------------------------------
 \* legacy rule up to Byzantium and again on Petersburg; net metering EIP-1283 (Constantinople), EIP-2200 (Istanbul),
 \* with cold-slot surcharge EIP-2929 (Berlin), reduced clearing refund EIP-3529 (London)
@@ -128,9 +147,9 @@ SStoreKnown(e) == e.op = 85 /\ e.cur # "" /\ e.orig # "" /\ e.t1 # "" /\ Len(e.f
 \* refund this step adds to its frame (SSTORE as above; SELFDESTRUCT 24000 once per contract until London)
 RefundDelta(e) ==
   IF SStoreKnown(e) THEN SStore(e.cur, e.orig, e.t1, e.facts[1]).ref
-  ELSE IF e.op = 255 /\ Len(e.facts) = 1 THEN (IF fork <= 8 /\ e.facts[1] = 0 THEN 24000 ELSE 0)
+  ELSE IF e.op = 255 /\ Len(e.facts) = 2 THEN (IF fork <= 8 /\ e.facts[1] = 0 THEN 24000 ELSE 0)
   ELSE 0
-RefundUnknown(e) == (e.op = 85 /\ ~SStoreKnown(e)) \/ (e.op = 255 /\ Len(e.facts) # 1)
+RefundUnknown(e) == (e.op = 85 /\ ~SStoreKnown(e)) \/ (e.op = 255 /\ Len(e.facts) # 2)
 
 \* ---- message calls: price = access + value transfer + new account + memory expansion + gas handed to the callee ------------
 \* operands e.args = <<gas, address, [value,] inOffset, inSize, outOffset, outSize>>, facts = <<target warm, exists, empty, value non-zero>>
@@ -181,6 +200,7 @@ StepRules(e) ==
           \cup (IF e.err = "" /\ valid /\ DynCost(e) >= 0 /\ e.cost >= 0 /\ e.cost # DynCost(e) THEN {"memgas:memory/copy/hash/log/exp price differs from the schedule"} ELSE {})
           \cup (IF e.err = "" /\ valid /\ ForkPrices(e.op) # {} /\ e.cost >= 0 /\ e.cost \notin ForkPrices(e.op) THEN {"forkgas:state-access price not in the fork's schedule"} ELSE {})
           \cup (IF e.err = "" /\ valid /\ SStoreKnown(e) /\ e.cost >= 0 /\ e.cost # SStore(e.cur, e.orig, e.t1, e.facts[1]).cost THEN {"sstoregas:SSTORE price differs from the fork's (net-)metering rule"} ELSE {})
+          \cup AclRule(f, e)
           \cup (IF e.err = "" /\ valid /\ CallCost(e) >= 0 /\ e.cost >= 0 /\ e.cost # CallCost(e) THEN {"callgas:call price differs from access + value + new account + memory + forwarded gas"} ELSE {})
 
 \* the frame record after a step that did not fail
@@ -194,7 +214,9 @@ AfterStep(f, e) ==
                !.pc = IF jump THEN (IF e.i0 >= 0 THEN e.i0 ELSE -1) ELSE e.pc + 1 + PushLen(e.op),
                !.stk = IF valid THEN e.stk - t.pops + t.pushes ELSE -1,
                !.op = e.op, !.cost = e.cost, !.pend = IF callish /\ e.gas >= 0 /\ e.cost >= 0 THEN e.gas - e.cost ELSE -1,
-               !.ref = @ + RefundDelta(e), !.refok = @ /\ ~RefundUnknown(e)]
+               !.ref = @ + RefundDelta(e), !.refok = @ /\ ~RefundUnknown(e),
+               !.wa = IF fork >= 8 /\ e.op \in AddrOps /\ e.tgt # "" THEN @ \cup {e.tgt} ELSE @,
+               !.ws = IF fork >= 8 /\ e.op \in {84, 85} /\ e.t0 # "" THEN @ \cup {SlotKey(f, e)} ELSE @]
 
 ---------------------------------------------------------------------------
 \* journal maps: (account, call index) -> list of values, an immediately repeated value recorded once
@@ -209,7 +231,9 @@ Line ==
   /\ LET a == Trace[l].a
          r == Trace[l].r
      IN CASE a.k = "reset" ->
-               /\ run' = a.name /\ fork' = ForkIdx(a.kind) /\ xeip' = (a.code = 3860) /\ fs' = <<>> /\ calls' = <<>> /\ open' = <<>>
+               /\ run' = a.name /\ fork' = ForkIdx(a.kind) /\ xeip' = (a.code = 3860)
+               /\ acl' = [a |-> {a.warm[i] : i \in {j \in 1..Len(a.warm) : ~HasSlash(a.warm[j])}}, s |-> {a.warm[i] : i \in {j \in 1..Len(a.warm) : HasSlash(a.warm[j])}}]
+               /\ fs' = <<>> /\ calls' = <<>> /\ open' = <<>>
                /\ jpx' = [on |-> a.top = 1, pos |-> 0, exp |-> <<>>, i |-> 0]
                /\ balx' = [exp |-> <<>>, got |-> <<>>] /\ rfx' = [seen |-> FALSE, ref |-> 0, ok |-> FALSE]
                /\ cnt' = [cnt EXCEPT !.lines = @ + 1, !.runs = @ + 1]
@@ -222,9 +246,13 @@ Line ==
                    self == IF a.kind \in {"CALLCODE", "DELEGATECALL"} THEN a.from ELSE a.to
                    nd == [from |-> a.from, to |-> (IF a.kind = "CALL" THEN a.to ELSE ""), inh |-> a.inh, inlen |-> a.inlen, val |-> a.val, gasx |-> a.gasx,
                           parent |-> (IF open = <<>> THEN 0 ELSE open[Len(open)]), outh |-> "", outlen |-> 0, err |-> "", leftx |-> "?", refused |-> FALSE, closed |-> FALSE, pos |-> jpx.pos + 1]
-               IN /\ fs' = Push(fs, [gas |-> a.gas, pc |-> 0, stk |-> 0, msize |-> 0, op |-> -1, cost |-> 0, pend |-> -1, enterGas |-> a.gas,
+                   \* the address of a contract being created is warm from then on, whether or not the creation succeeds (added before the snapshot)
+                   creates == fork >= 8 /\ a.kind \in {"CREATE", "CREATE2"}
+                   fsC == IF creates /\ fs # <<>> THEN [fs EXCEPT ![Len(fs)].wa = @ \cup {a.to}] ELSE fs
+               IN /\ acl' = IF creates /\ fs = <<>> THEN [acl EXCEPT !.a = @ \cup {a.to}] ELSE acl
+                  /\ fs' = Push(fsC, [gas |-> a.gas, pc |-> 0, stk |-> 0, msize |-> 0, op |-> -1, cost |-> 0, pend |-> -1, enterGas |-> a.gas,
                                       self |-> self, node |-> (IF hasNode THEN Len(calls) + 1 ELSE 0),
-                                      jp |-> (jpx.on /\ a.kind = "CALL" /\ a.code > 0), to |-> a.to, ref |-> 0, refok |-> TRUE])
+                                      jp |-> (jpx.on /\ a.kind = "CALL" /\ a.code > 0), to |-> a.to, ref |-> 0, refok |-> TRUE, wa |-> {}, ws |-> {}])
                   /\ calls' = IF hasNode THEN Append(calls, nd) ELSE calls
                   /\ open' = IF hasNode THEN Append(open, Len(calls) + 1) ELSE open
                   \* a message call that runs code fires its pre join point exactly once, after it is announced and before its first instruction
@@ -236,7 +264,7 @@ Line ==
           [] a.k = "exit" ->
                \* the parent gets back what the callee left: gas after the call step = gas - cost + (given - used)
                LET popped == IF fs = <<>> THEN fs ELSE Pop(fs)
-                   child == IF fs = <<>> THEN [enterGas |-> -1, ref |-> 0, refok |-> FALSE] ELSE TopF
+                   child == IF fs = <<>> THEN [enterGas |-> -1, ref |-> 0, refok |-> FALSE, wa |-> {}, ws |-> {}] ELSE TopF
                    left == IF child.enterGas >= 0 /\ a.used >= 0 THEN child.enterGas - a.used ELSE -1
                    bad == IF left # -1 /\ left < 0 THEN {"rule"} ELSE {}      \* a frame cannot use more than it was given
                    \* CALL-family: the forwarded gas is part of the step's cost; CREATE/CREATE2: it is taken on top of the cost
@@ -247,7 +275,9 @@ Line ==
                                \* refunds earned in a frame that ends without error pass to its parent; those of a failed frame are reverted with it
                                IN [popped EXCEPT ![Len(popped)].gas = back, ![Len(popped)].pend = -1,
                                                  ![Len(popped)].ref = @ + (IF a.err = "" THEN child.ref ELSE 0),
-                                                 ![Len(popped)].refok = @ /\ (a.err # "" \/ child.refok)]
+                                                 ![Len(popped)].refok = @ /\ (a.err # "" \/ child.refok),
+                                                 ![Len(popped)].wa = @ \cup (IF a.err = "" THEN child.wa ELSE {}),
+                                                 ![Len(popped)].ws = @ \cup (IF a.err = "" THEN child.ws ELSE {})]
                    nodeIdx == IF fs = <<>> THEN 0 ELSE TopF.node
                IN /\ fs' = par
                   /\ rfx' = IF Len(fs) = 1 THEN [seen |-> TRUE, ref |-> (IF a.err = "" THEN child.ref ELSE 0), ok |-> (a.err # "" \/ child.refok)] ELSE rfx
@@ -261,7 +291,7 @@ Line ==
                                          !.exp = IF fs # <<>> /\ TopF.jp THEN Append(@, [pos |-> jpx.pos, to |-> TopF.to, point |-> "post"]) ELSE @]
                   /\ AddViol(LineDiffs(a, r) \cup bad, a, r)
                   /\ cnt' = [cnt EXCEPT !.lines = @ + 1, !.callret = @ + (IF left >= 0 THEN 1 ELSE 0)]
-                  /\ UNCHANGED <<run, fork, xeip, balx>>
+                  /\ UNCHANGED <<run, fork, xeip, acl, balx>>
           [] a.k \in {"step", "fault"} ->
                LET rules == IF a.k = "step" THEN StepRules(a) ELSE {}
                    f2 == IF fs = <<>> THEN fs
@@ -288,8 +318,9 @@ Line ==
                                         !.refused = @ + (IF refusedAttempt THEN 1 ELSE 0),
                                         !.forkgas = @ + (IF a.err = "" /\ ForkPrices(a.op) # {} THEN 1 ELSE 0),
                                         !.sstorerule = @ + (IF a.k = "step" /\ a.err = "" /\ SStoreKnown(a) THEN 1 ELSE 0),
-                                        !.callrule = @ + (IF a.k = "step" /\ a.err = "" /\ CallCost(a) >= 0 THEN 1 ELSE 0)]
-                  /\ UNCHANGED <<run, fork, xeip, balx, rfx>>
+                                        !.callrule = @ + (IF a.k = "step" /\ a.err = "" /\ CallCost(a) >= 0 THEN 1 ELSE 0),
+                                        !.aclrule = @ + (IF a.k = "step" /\ a.err = "" /\ fork >= 8 /\ ((a.op \in AddrOps /\ a.tgt # "" /\ WarmFact(a) >= 0) \/ (a.op \in {84, 85} /\ Len(a.facts) = 1 /\ a.facts[1] >= 0)) THEN 1 ELSE 0)]
+                  /\ UNCHANGED <<run, fork, xeip, acl, balx, rfx>>
           [] a.k = "result" \/ r.k = "result" ->
                \* the refund counter at the end of the run is what the SSTORE / SELFDESTRUCT steps of frames that did not fail add up to
                \* (a.top = 1: the stream was cut; no judgement either when a contributing step lacked its facts)
@@ -300,7 +331,7 @@ Line ==
                /\ cnt' = [cnt EXCEPT !.lines = @ + 1, !.results = @ + 1,
                                      !.refunds = @ + (IF r.k = "result" /\ r.costx \notin {"", "0"} THEN 1 ELSE 0),
                                      !.refundrule = @ + (IF a.k = "result" /\ a.top = 0 /\ rfx.seen /\ rfx.ok /\ rfx.ref # 0 THEN 1 ELSE 0)]   \* runs that end with a non-zero refund counter
-               /\ UNCHANGED <<run, fork, xeip, calls, open, jpx, balx, rfx>>
+               /\ UNCHANGED <<run, fork, xeip, acl, calls, open, jpx, balx, rfx>>
           [] a.k = "jp" ->
                \* one firing seen by the Aspect provider: a.d = callbacks recorded before it, a.to = contract, a.name = pre/post
                LET i == jpx.i + 1
@@ -310,13 +341,13 @@ Line ==
                IN /\ AddViol(IF bad THEN {"jpseq"} ELSE {}, a, [r EXCEPT !.d = e.pos, !.to = e.to, !.name = e.point])
                   /\ jpx' = [jpx EXCEPT !.i = i]
                   /\ cnt' = [cnt EXCEPT !.lines = @ + 1, !.firings = @ + 1]
-                  /\ UNCHANGED <<fs, run, fork, xeip, calls, open, balx, rfx>>
+                  /\ UNCHANGED <<fs, run, fork, xeip, acl, calls, open, balx, rfx>>
           [] a.k = "jpend" ->
                \* no expected firing may be missing (a.top = 1: the stream was cut, no judgement)
                LET bad == a.top = 0 /\ (jpx.i # Len(jpx.exp) \/ a.d # Len(jpx.exp))
                IN /\ AddViol(IF bad THEN {"jpseq"} ELSE {}, a, [r EXCEPT !.d = Len(jpx.exp), !.name = "expected number of firings"])
                   /\ cnt' = [cnt EXCEPT !.lines = @ + 1]
-                  /\ UNCHANGED <<fs, run, fork, xeip, calls, open, jpx, balx, rfx>>
+                  /\ UNCHANGED <<fs, run, fork, xeip, acl, calls, open, jpx, balx, rfx>>
           [] a.k = "node" ->
                \* one node of the recorded call tree (index a.d, 1-based; parent a.pc; children a.kids) against the tree the callbacks imply
                LET i == a.d
@@ -332,13 +363,13 @@ Line ==
                IN /\ AddViol(IF a.top = 1 THEN {} ELSE (IF shapeBad THEN {"treeshape"} ELSE {}) \cup (IF contentBad THEN {"treecontent"} ELSE {}), a,
                              [r EXCEPT !.from = e.from, !.to = e.to, !.inh = e.inh, !.outh = e.outh, !.err = e.err, !.usedx = e.leftx, !.gasx = e.gasx, !.pc = e.parent, !.name = "expected from the callbacks"])
                   /\ cnt' = [cnt EXCEPT !.lines = @ + 1, !.nodes = @ + 1]
-                  /\ UNCHANGED <<fs, run, fork, xeip, calls, open, jpx, balx, rfx>>
+                  /\ UNCHANGED <<fs, run, fork, xeip, acl, calls, open, jpx, balx, rfx>>
           [] a.k = "tree" ->
                \* the whole tree: as many nodes as call attempts, cursor at rest, nothing beyond the last index (a.top = 1: the stream was cut, no judgement)
                LET bad == a.top = 0 /\ (a.d # Len(calls) \/ a.pc # 0 \/ a.stk # 0)
                IN /\ AddViol(IF bad THEN {"treeshape"} ELSE {}, a, [r EXCEPT !.d = Len(calls), !.name = "expected node count, cursor nil, nothing beyond"])
                   /\ cnt' = [cnt EXCEPT !.lines = @ + 1, !.trees = @ + 1]
-                  /\ UNCHANGED <<fs, run, fork, xeip, calls, open, jpx, balx, rfx>>
+                  /\ UNCHANGED <<fs, run, fork, xeip, acl, calls, open, jpx, balx, rfx>>
           [] a.k = "xfer" ->
                \* one observed value transfer (a.d = callbacks recorded before it; real balances of sender / recipient before: t0 t1, after: t2 gasx).
                \* The transfer is the last thing before the frame is announced, so it belongs to the node whose enter callback is number a.d + 1;
@@ -352,7 +383,7 @@ Line ==
                IN /\ balx' = [balx EXCEPT !.exp = e4]
                   /\ AddViol(IF a.top = 0 /\ i = 0 THEN {"baljournal"} ELSE {}, a, [r EXCEPT !.name = "a transfer that no CALL/CREATE frame entry follows"])
                   /\ cnt' = [cnt EXCEPT !.lines = @ + 1, !.xfers = @ + 1]
-                  /\ UNCHANGED <<fs, run, fork, xeip, calls, open, jpx, rfx>>
+                  /\ UNCHANGED <<fs, run, fork, xeip, acl, calls, open, jpx, rfx>>
           [] a.k = "balv" ->
                \* one value of the dumped balance journal: account a.to, call index a.d (1-based), position a.pc in its list
                LET k == <<a.to, a.d>>
@@ -360,7 +391,7 @@ Line ==
                IN /\ balx' = [balx EXCEPT !.got = IF k \in DOMAIN @ THEN [@ EXCEPT ![k] = Append(@, a.val)] ELSE @ @@ (k :> <<a.val>>)]
                   /\ AddViol(IF a.top = 0 /\ a.pc # Len(have) + 1 THEN {"baljournal"} ELSE {}, a, [r EXCEPT !.name = "dump out of order"])
                   /\ cnt' = [cnt EXCEPT !.lines = @ + 1, !.balvals = @ + 1]
-                  /\ UNCHANGED <<fs, run, fork, xeip, calls, open, jpx, rfx>>
+                  /\ UNCHANGED <<fs, run, fork, xeip, acl, calls, open, jpx, rfx>>
           [] a.k = "balend" ->
                \* C13: the journal is exactly what the observed transfers imply - nothing missing, nothing more, every list in order
                LET bad == a.top = 0 /\ balx.got # balx.exp
@@ -372,11 +403,11 @@ Line ==
                                        !.name = "expected journal of this account and call: " \o (IF k1 \in DOMAIN balx.exp THEN ToString(balx.exp[k1]) ELSE "none")
                                                 \o ", recorded: " \o (IF k1 \in DOMAIN balx.got THEN ToString(balx.got[k1]) ELSE "none")])
                   /\ cnt' = [cnt EXCEPT !.lines = @ + 1, !.baljournals = @ + (IF a.top = 0 /\ DOMAIN balx.exp # {} THEN 1 ELSE 0)]
-                  /\ UNCHANGED <<fs, run, fork, xeip, calls, open, jpx, balx, rfx>>
+                  /\ UNCHANGED <<fs, run, fork, xeip, acl, calls, open, jpx, balx, rfx>>
           [] OTHER ->     \* tracer outputs, or "none" on the Artela side (the reference stream is longer)
                /\ AddViol(LineDiffs(a, r), a, r)
                /\ cnt' = [cnt EXCEPT !.lines = @ + 1, !.tracerouts = @ + (IF a.k = "tracer" THEN 1 ELSE 0)]
-               /\ UNCHANGED <<fs, run, fork, xeip, calls, open, jpx, balx, rfx>>
+               /\ UNCHANGED <<fs, run, fork, xeip, acl, calls, open, jpx, balx, rfx>>
   /\ l' = l + 1
 
 Next == Line
